@@ -1,10 +1,10 @@
 #!/usr/bin/env python3
 # Rewrites the catch matrix of DESIGN.md (§10) from /verif/seeded/*/meta.json and the output of `semaverif selftest`.
 import json,glob,subprocess,re,os
-out=subprocess.run(['/verif/bin/semaverif','selftest','-j','10'],capture_output=True,text=True,env=dict(os.environ)).stdout
+out=open(os.environ['SELFTEST_OUT']).read() if os.environ.get('SELFTEST_OUT') else subprocess.run(['/verif/bin/semaverif','selftest','-j','10'],capture_output=True,text=True,env=dict(os.environ)).stdout
 status={}
 for l in out.splitlines():
-    m=re.match(r'(s\d?-\S+)\s+(detected|missed|declared-undetectable|not-applicable)\s*(.*)',l)
+    m=re.match(r'((?:s\d?|r)-\S+)\s+(detected|missed|declared-undetectable|not-applicable)\s*(.*)',l)
     if m: status[m.group(1)]=(m.group(2),m.group(3).split())
 rows=[]
 for p in sorted(glob.glob('/verif/seeded/*/meta.json')):
